@@ -33,7 +33,12 @@ BUILDS = {
     "dev-eu868-noc": _dev("region-eu868"),
     "dev-us915-noc": _dev("region-us915"),
     "dev-serde": _dev("region-eu868,class-c,serde"),
-    "phy": dict(package="lora-phy", args=["--features", "lorawan-radio"], swap=True),
+    "phy": dict(package="lora-phy", args=["--features", "lorawan-radio"], swap=True,
+                # cargo-kani drops `dep/feature` arguments: give the optional lorawan-device dependency
+                # its region features in the scratch copy's manifest instead (build config only)
+                edits=[("lora-phy/Cargo.toml",
+                        'lorawan-device = { path = "../lorawan-device", default-features = false, version = "0.12", optional = true }',
+                        'lorawan-device = { path = "../lorawan-device", default-features = false, features = ["region-eu868", "region-us915"], version = "0.12", optional = true }')]),
 }
 
 # ---------------------------------------------------------------------------------------------
@@ -123,7 +128,7 @@ class Inconclusive(Exception):
     pass
 
 
-def apply_overlay(scratch, files, swap_crypto, extra_text=None):
+def apply_overlay(scratch, files, swap_crypto, edits=()):
     """Append one `#[cfg(kani)] #[path=..] mod ..;` line per harness file to its anchor in the
     scratch copy.  Harness files are copied into the scratch directory so that replay tests can
     be appended to them there.  Returns {harness file -> copy path}."""
@@ -147,6 +152,12 @@ def apply_overlay(scratch, files, swap_crypto, extra_text=None):
         with open(anchor, "a") as fh:
             fh.write('\n#[cfg(%s)]\n#[allow(warnings, unused_extern_crates, clippy::all)]\n'
                      '#[path = "%s"]\npub(crate) mod %s;\n' % (cfg, cp, f["modname"]))
+    for rel, needle, repl in edits:
+        path = os.path.join(src, rel)
+        text = open(path).read() if os.path.isfile(path) else ""
+        if text.count(needle) != 1:
+            raise Inconclusive("build edit anchor not found exactly once in %s" % rel)
+        open(path, "w").write(text.replace(needle, repl))
     if swap_crypto:
         lib = os.path.join(src, "lorawan-encoding/src/lib.rs")
         text = open(lib).read()
